@@ -58,6 +58,18 @@ type useGen struct {
 // variable of an enclosing loop the argument may use.
 func (u *useGen) argExpr(a, loopVar string) *tw.Expr {
 	u.uid++
+	// the page also has variables named like the arguments (same types): an
+	// argument expression may use them, and it must see the page's values
+	if u.env.Model["n"].K == refint.KInt && rapid.IntRange(0, 2).Draw(u.rt, "argFromNamesake") == 0 {
+		switch a {
+		case "n":
+			return rapid.SampledFrom([]*tw.Expr{tw.Bin("+", tw.Var("n"), intLit(1)), tw.Call(tw.Var("s"), "len"), tw.Tern(tw.Var("flag"), intLit(1), tw.Var("n"))}).Draw(u.rt, "argNNamesake")
+		case "s":
+			return rapid.SampledFrom([]*tw.Expr{tw.Call(tw.Var("n"), "str"), tw.Bin("+", tw.Var("s"), tw.Str("!")), tw.Tern(tw.Var("flag"), tw.Str("yes"), tw.Var("s"))}).Draw(u.rt, "argSNamesake")
+		default:
+			return rapid.SampledFrom([]*tw.Expr{tw.Un(tw.ENot, tw.Var("flag")), tw.Bin(">", tw.Var("n"), intLit(0)), tw.Bin("==", tw.Var("s"), tw.Str("zz"))}).Draw(u.rt, "argFlagNamesake")
+		}
+	}
 	switch a {
 	case "n":
 		if loopVar != "" && rapid.Bool().Draw(u.rt, "argFromLoop") {
@@ -153,6 +165,11 @@ func TestC07_Components(t *testing.T) {
 	in := interp()
 	runRapid(t, c, 4000, 45000, func(rt *rapid.T) {
 		env := genDataEnv().Draw(rt, "data")
+		if rapid.Bool().Draw(rt, "namesakes") {
+			env.add("n", spec.IntOf(spec.TInt, int64(rapid.IntRange(-5, 50).Draw(rt, "pageN"))))
+			env.add("s", spec.String(rapid.SampledFrom([]string{"page-s", "", "zz"}).Draw(rt, "pageS")))
+			env.add("flag", spec.Bool(rapid.Bool().Draw(rt, "pageFlag")))
+		}
 		u := &useGen{rt: rt, env: env, uses: map[string]int{}}
 		page := u.page(2)
 		files := compFiles()
@@ -342,5 +359,25 @@ func TestC07_Collisions(t *testing.T) {
 			c.Fail(t, kindOf(f), cs, "error or the argument's value", r, f)
 		}
 	}
-	c.ExhaustivePart("8 hand-written collision shapes")
+	// arguments are evaluated at the place of use: an argument expression that
+	// names a page variable sees the page's value even when another argument of
+	// the same use has that name
+	for i, sh := range []struct{ page, want string }{
+		{`{{ a = "A"; b = "B" }}@component("pair", {a: b, b: a});`, "<B|A>;"},
+		{`{{ a = 1; b = 10; c = 100 }}@component("triple", {a: c, b: a + 1, c: a + b});`, "<100|2|11>;"},
+		{`@each(a in [1, 2])@component("triple", {a: a * 10, b: a, c: a + 1})@end;`, "<10|1|2><20|2|3>;"},
+		{`{{ b = 5 }}@component("pair", {a: b, b: b + 1}),{{ b }};`, "<5|6>,5;"},
+	} {
+		files := refint.Files{"pair": []*tw.Stmt{tw.Text("<"), tw.Print(tw.Var("a")), tw.Text("|"), tw.Print(tw.Var("b")), tw.Text(">")},
+			"triple": []*tw.Stmt{tw.Text("<"), tw.Print(tw.Var("a")), tw.Text("|"), tw.Print(tw.Var("b")), tw.Text("|"), tw.Print(tw.Var("c")), tw.Text(">")}}
+		src := printFiles(files, nil)
+		src["page"] = sh.page
+		cs := treeCase{Files: src, Dir: "t", Ext: ".tw", Page: "page", Want: want{St: "ok", Kind: "text", S: sh.want}, Note: fmt.Sprintf("argument-order-%d", i)}
+		c.CaseEnum(true, "collision:arguments-naming-each-other")
+		c.Sample(cs.sample())
+		if r, f := runTreeCase(c, cs); f != "" {
+			c.Fail(t, kindOf(f), cs, sh.want, r, f)
+		}
+	}
+	c.ExhaustivePart("8 hand-written collision shapes + 4 shapes with arguments that name each other")
 }
